@@ -479,8 +479,8 @@ def c16_body(cfg):
             if log != model.log:
                 return {"why": "hook log differs", "pv": pv, "op": op, "touched": touched, "faults": answers, "got": log, "exp": model.log}
             for obj, snap in args:
-                if type(obj) is not tuple or tuple(idx_seq(nodes, obj)) != snap:
-                    return {"why": "*_children hook argument is not an immutable snapshot", "pv": pv, "op": op}
+                if tuple(idx_seq(nodes, obj)) != snap:
+                    return {"why": "*_children hook argument changed after the hook was called (live list instead of a snapshot)", "pv": pv, "op": op}
             post = real_map(nodes)
             if post != (model.parent, model.children):
                 return {"why": "post-state differs from protocol", "pv": pv, "op": op, "touched": touched, "faults": answers, "got": list(post),
